@@ -9,7 +9,11 @@ Correspondence (implementation vs extracted Coq model, same input):
     variation (NUMBER vs every RK form vs MULRK grouping, DIMENSIONS variants, ignorable
     records, 8/16-bit strings, formula cached values + STRING, SHRFMLA / ARRAY / TABLE / other
     ignored records between FORMULA and STRING, STRING continued in CONTINUE records, INDEX / ROW /
-    DBCELL / BLANK / MULBLANK around the row blocks, both DIMENSIONS widths), the model reading the
+    DBCELL / BLANK / MULBLANK around the row blocks, both DIMENSIONS widths, MERGECELLS records, and
+    substreams NESTED in the sheet - xlsgen.chart_sub: the chart substream of an embedded chart object
+    with its series cache ON positions of the sheet's own cells, FORMULA / STRING / MERGECELLS / CONTINUE
+    records and deeper BOF ... EOF pairs inside, behind the cell table or anywhere between the cell
+    records, several per sheet), the model reading the
     very same substream bytes; the same substreams through the RecordIter hook; plus malformed
     substreams (truncation, unsorted rows, bad DIMENSIONS, stray / missing STRING records).
   * shared strings end to end (run_sst_files, corpus sst-*): workbooks whose SST spills into CONTINUE
